@@ -1,4 +1,10 @@
-"""C10 — combined over the wire-format family groups (parts built separately: c10_<group>)."""
+"""C10 — combined over family parts (built separately: c10_theta, c10_hll, c10_cpc, c10_quant, c10_count, c10_misc)."""
 from ..combine import combined_spec
 
-SPEC = combined_spec("C10", ["c10_theta", "c10_hll", "c10_cpc", "c10_quant", "c10_count", "c10_misc"], "C10")
+SPEC = combined_spec("C10", ['c10_theta', 'c10_hll', 'c10_cpc', 'c10_quant', 'c10_count', 'c10_misc'], "C10")
+CLAIM_TEXT = ('Documented cross-language layout: per family a kernel-checked `wire_consts_documented` (every constant, offset, flag bit, family/version id and size formula parameter regenerated from the current headers equals the hand-written documented value), field-offset theorems about `encode`, legacy-format theorems (Theta v1/v2, Tuple legacy, KLL v1, quantiles v1/v2, t-digest reference formats decode to the same content); every image of the committed baseline corpus (written from the pinned tree) and every shipped .sk file must decode to the recorded content on the current tree, and a documentation-only Lean reader must agree with the API on live images; MurmurHash3/XXHash64 are modelled bit-exactly and compared per input type. '
+              + "Parts: " + " ".join(SPEC.claim_texts))
+CLAIM = dict(text=CLAIM_TEXT,
+             note='Baseline corpus = images written by the pinned tree (no other-language producers offline beyond the shipped files).',
+             technique='Lean 4 `decide` over regenerated constants + documented-layout reader + baseline corpus replay + hash models',
+             design='DESIGN.md §3 C10')
